@@ -35,7 +35,7 @@ structure Contracts (C : Cfg) (sp : ObjSpec) (cov : Coverage) : Prop where
   tblReset : ∀ t, MutC sp (.table t) (Theta.reset C.theta t) Obj.table
   newKll : cov.kll → ∀ k, NewC sp (Kll.ctor C.kll k) Obj.kll
   kllUpdate : ∀ s a coins, MutC sp (.kll s) (Kll.update s a coins) (fun r => .kll r.1)
-  kllMerge : ∀ a b byMove coins, MergeC sp (.kll a) (.kll b) byMove (Kll.merge a b byMove coins) (fun r => .kll r.1)
+  kllMerge : ∀ a b byMove coins, MergeC sp (.kll a) (.kll b) byMove (Kll.mergeChecked a b byMove coins) (fun r => .kll r.1)
   kllQuery : ∀ s, MutC sp (.kll s) (Kll.query s) Obj.kll
   kllSer : ∀ s, ReadC sp (.kll s) (Kll.serialize s)
   kllRound : ∀ s, FromC sp (.kll s) (Kll.roundTrip C.kll s) Obj.kll
